@@ -23,17 +23,18 @@ EXTENDS Lifecycle, Json, IOUtils, TLC
 Traces == JsonDeserialize(IOEnv.TRACE_FILE)
 
 VARIABLES tid, l
-tvars == <<declared, used, stageNames, cur, locked, nsteps, dead, tid, l>>
+VARIABLE lost          \* a recipe whose bake failed was baked again: nothing is specified any more
+tvars == <<declared, used, stageNames, cur, locked, nsteps, dead, tid, l, lost>>
 
 ToSet(s) == {s[i] : i \in DOMAIN s}
 StepMethods == {"transfer", "create_container", "create_solution", "create_solution_from", "remove", "dilute", "fill_to"}
 
 E == Traces[tid][l]
 
-PostOK(e) == \/ dead'
-             \/ /\ e.post.nsteps = nsteps'
-                /\ ToSet(e.post.declared) = declared'
-                /\ e.post.locked = locked'
+\* (also after a bake that failed part-way: the steps, the declared names and the lock are still specified)
+PostOK(e) == /\ e.post.nsteps = nsteps'
+             /\ ToSet(e.post.declared) = declared'
+             /\ e.post.locked = locked'
 
 Failed(out) == out # "ok"
 ValueRefusal(out) == out \notin {"ok", "RuntimeError"}
@@ -73,8 +74,13 @@ TBake(e) ==
 
 Consume ==
   /\ tid <= Len(Traces) /\ l <= Len(Traces[tid])
-  /\ \/ dead /\ UNCHANGED lvars                                               \* an abandoned recipe: anything goes
-     \/ ~dead /\ (TUses(E) \/ TStep(E) \/ TStage(E) \/ TBake(E)) /\ PostOK(E)
+  /\ \/ lost /\ UNCHANGED lvars /\ UNCHANGED lost                                          \* anything goes
+     \* after a failed bake the recipe is not locked: declaring and step-adding calls keep their discipline, stage calls
+     \* must not raise RuntimeError, and baking again leaves the specified world
+     \/ ~lost /\ dead /\ (TUses(E) \/ TStep(E)) /\ PostOK(E) /\ UNCHANGED lost
+     \/ ~lost /\ dead /\ E.m \in {"start_stage", "end_stage"} /\ E.out # "RuntimeError" /\ UNCHANGED lvars /\ UNCHANGED lost
+     \/ ~lost /\ dead /\ E.m = "bake" /\ UNCHANGED lvars /\ lost' = TRUE
+     \/ ~lost /\ ~dead /\ (TUses(E) \/ TStep(E) \/ TStage(E) \/ TBake(E)) /\ PostOK(E) /\ UNCHANGED lost
   /\ l' = l + 1 /\ tid' = tid
   /\ TLCSet(2, <<tid, l>>)
 
@@ -82,9 +88,10 @@ NextTrace ==
   /\ tid <= Len(Traces) /\ l > Len(Traces[tid])
   /\ tid' = tid + 1 /\ l' = 1
   /\ declared' = {} /\ used' = {} /\ stageNames' = {} /\ cur' = "all" /\ locked' = FALSE /\ nsteps' = 0 /\ dead' = FALSE
+  /\ lost' = FALSE
   /\ TLCSet(1, tid)
 
-TraceInit == LInit /\ tid = 1 /\ l = 1 /\ TLCSet(1, 0) /\ TLCSet(2, <<0, 0>>)
+TraceInit == LInit /\ lost = FALSE /\ tid = 1 /\ l = 1 /\ TLCSet(1, 0) /\ TLCSet(2, <<0, 0>>)
 TraceNext == Consume \/ NextTrace
 TraceSpec == TraceInit /\ [][TraceNext]_tvars
 
